@@ -1,0 +1,13 @@
+//go:build verif
+
+// Machine-checked contracts for package value (read by /verif/govc).
+
+package value
+
+// ---- C13: a created value is a new, well-formed object ---------------------------------------------
+//@ func Create [C13]
+//@   ensures [created-value-is-new C13] err == nil ==> fresh(result) && valid(result)
+
+// Copy of every value type except the NULL singleton returns a new object.
+//@ forall-funcs ^\(\*(Ident|String|IP|Boolean|Integer|Float|RTime|Time|Backend|Acl|Regex)\)\.Copy$ [C13]
+//@   ensures [copy-is-a-new-object C13] fresh(result) && valid(result)
